@@ -136,6 +136,13 @@ Definition commit_wait (bound max_sleep_ns : Z) (fuel : nat) (script : list (opt
       else cw_loop fuel bound first rest 1%nat
   end.
 
+(* SetCommitWaitUntilTSO: registrations only raise the constraint (0 = "no constraint" never erases one) *)
+Definition set_cw (cur nw : Z) : Z := if cur <? nw then nw else cur.
+Definition cw_bound (regs : list Z) : Z := fold_left set_cw regs 0.
+(* a transaction: a sequence of registrations, then GetTimestampForCommit *)
+Definition commit_wait_regs (regs : list Z) (max_sleep_ns : Z) (fuel : nat) (script : list (option Z)) : cw_res * nat :=
+  commit_wait (cw_bound regs) max_sleep_ns fuel script.
+
 (* ---------- local.go ---------- *)
 (* GoTimeToTS of a clock reading in ms (non-negative, < 2^45) *)
 Definition go_time_to_ts (now_ms : Z) : Z := wrap_u64 (wrap_i64 (now_ms * two18)).
